@@ -72,6 +72,14 @@ fn main() {
                     println!("{:?} frames={:?}", r, n);
                 }
             }
+            "run-unprepared" => {
+                let r = catch_unwind(AssertUnwindSafe(|| vm.run_count(10)));
+                println!("run_count(10) on a VM with nothing prepared: {}", match r { Ok(x) => format!("{:?}", x.map(|o| o.map(|c| c.to_string()))), Err(_) => "<<PANIC>>".into() });
+                let mut vm2 = Vm::new();
+                eval_all(&mut vm2, "(+ 1 2)");
+                let r = catch_unwind(AssertUnwindSafe(|| vm2.run_count(10)));
+                println!("run_count(10) after a completed evaluation: {}", match r { Ok(x) => format!("{:?}", x.map(|o| o.map(|c| c.to_string()))), Err(_) => "<<PANIC>>".into() });
+            }
             "highlight-vector" => {
                 let h = marwood::syntax::ReplHighlighter::new();
                 for (t, i) in [("#(a)", 3usize), ("#(a)", 0), ("(a #(b) c)", 9), ("(a #(b) c)", 0), ("#(a (b))", 7)] {
